@@ -796,7 +796,7 @@ func (in *Interp) opaqueString(st *State, why string) Value {
 		e[i] = Poison{"opaque formatted string (" + why + ")"}
 	}
 	id := st.alloc(Array{E: e}, "opaque string")
-	return Slice{Obj: id, Len: 8, Cap: 8, Str: true}
+	return Slice{Obj: id, Len: 8, Cap: 8, Str: true, Opaque: true}
 }
 
 // goArgs converts the variadic []any of a formatting call to native values
@@ -818,8 +818,8 @@ func (in *Interp) goArgs(st *State, v Value) ([]interface{}, bool) {
 				return nil, false
 			}
 			if w, sgn, ok := intWidth(ifc.T); ok {
-				if _, named := ifc.T.(*types.Named); named {
-					return nil, false // may have a String method
+				if in.hasFormatMethod(ifc.T) {
+					return nil, false
 				}
 				if sgn {
 					out = append(out, signed(w, x.C).Int64())
@@ -833,7 +833,7 @@ func (in *Interp) goArgs(st *State, v Value) ([]interface{}, bool) {
 			if !x.Str {
 				return nil, false
 			}
-			if _, named := ifc.T.(*types.Named); named {
+			if in.hasFormatMethod(ifc.T) {
 				return nil, false
 			}
 			str, ok := in.concreteStr(st, x)
@@ -1023,4 +1023,18 @@ func parseDurationNative(in *Interp, st *State, fn *ssa.Function, args []Value, 
 		ev = Iface{T: types.NewPointer(errT), V: Ptr{Obj: id}}
 	}
 	return Tuple{E: []Value{in.tf.ConstI(64, int64(d)), ev}}, true
+}
+
+// hasFormatMethod: does fmt consult a method of this type when formatting it?
+func (in *Interp) hasFormatMethod(t types.Type) bool {
+	if _, named := t.(*types.Named); !named {
+		return false
+	}
+	ms := in.prog.MethodSets.MethodSet(t)
+	for _, n := range []string{"String", "Error", "Format", "GoString"} {
+		if ms.Lookup(nil, n) != nil {
+			return true
+		}
+	}
+	return false
 }
